@@ -100,6 +100,8 @@ func execC05(in []int64) []int64 {
 	return out
 }
 
+var c05LargeOps = largeOps{opAdd: c05Enqueue, opRem: c05Dequeue, opPeek: c05Peek, opSearch: c05Search, opSize: c05Size}
+
 // the exhaustive alphabet: index -> (op, arg)
 var c05Alpha = [][2]int{
 	{c05Enqueue, 1}, {c05Enqueue, 2}, {c05Enqueue, 3},
@@ -157,7 +159,7 @@ func c05Emit(g *Gen, stream string, cfg, t int, ops [][2]int) {
 	} else {
 		g.Count("impl.linked")
 	}
-	g.Count(fmt.Sprintf("len.%03d", len(ops)/50*50))
+	g.Count(largeLenBucket(len(ops)))
 	if nt {
 		g.Count("drain+refill")
 	}
@@ -203,13 +205,13 @@ func genC05(g *Gen) {
 	})
 	g.Exhaustive("exhaustive")
 
-	// 1b. thorough only: deeper, over the 5 ops that change or expose the front
-	// {Enqueue 1, Enqueue 2, Dequeue, Peek, Clear}, every sequence of length 7
-	// and 8 (shorter ones are covered above); the end of the case shows Size and
-	// the drained contents
-	if !g.Quick() {
+	// 1b. deeper, over the 5 ops that change or expose the front
+	// {Enqueue 1, Enqueue 2, Dequeue, Peek, Clear}: every sequence of length 6 and
+	// 7 (quick) / 7 and 8 (thorough; length 6 is covered above); the end of the
+	// case shows Size and the drained contents
+	{
 		deep := [][2]int{{c05Enqueue, 1}, {c05Enqueue, 2}, {c05Dequeue, 0}, {c05Peek, 0}, {c05Clear, 0}}
-		for n := 7; n <= 8; n++ {
+		for n := g.Pick(6, 7); n <= g.Pick(7, 8); n++ {
 			seqsExact(len(deep), n, func(seq []int) {
 				ops := make([][2]int, len(seq))
 				for i, v := range seq {
@@ -270,6 +272,35 @@ func genC05(g *Gen) {
 		cfg := c % 2
 		t := val()
 		c05Emit(g, "random", cfg, t, ops)
+	}
+
+	// 2b. large: structured long histories (c05_large.go) for both implementations:
+	// bulk grow-then-drain up to 1030 (thorough: 4000) elements, saw-tooth across
+	// the powers of two up to 1024 (4096), sliding windows through which up to
+	// 1100 (5000) elements pass while the queue holds 1..4
+	for cfg := 0; cfg <= 1; cfg++ {
+		cfg := cfg
+		limit := 0
+		if cfg == 1 {
+			// the node-heap model of the linked queue pays O(size x heap) per Enqueue
+			// (DList.Append walks the list): cubic in the size of a bulk history
+			limit = g.Pick(1030, 2050)
+		}
+		largePlans(g.Quick(), limit, func(name string, build func(b *largeBuilder)) {
+			var b *largeBuilder
+			if cfg == 0 {
+				b = newLargeBuilder(true, c05LargeOps, nil, 1)
+			} else {
+				b = newLargeBuilder(true, c05LargeOps, []int{1}, 2)
+			}
+			build(b)
+			c05Emit(g, "large", cfg, 1, b.ops)
+			g.Count("large." + name)
+			g.Count(largeBucket(b.maxHeld))
+			if b.removed >= 128 {
+				g.Count("large.removals>=128")
+			}
+		})
 	}
 
 	// 3. "malformed" use: everything a caller should not do — long runs of
@@ -349,8 +380,11 @@ func init() {
 		ID: "C05",
 		Rule: "exhaustive: every op sequence up to length 5 (quick) / 6 (thorough) over {Enqueue 1|2|3, Dequeue, Peek, Search 1|2|3, Size, Clear} " +
 			"for queue.New and for queue.NewLinked(1), result of every op observed, then Size + drain + Dequeue/Size/Peek on the emptied queue; " +
-			"thorough adds every sequence of length 7 and 8 over {Enqueue 1|2, Dequeue, Peek, Clear}; " +
-			"random: length-400 histories in fill / over-drain / churn phases over values 0..5; malformed: reads and removals on empty, emptied and cleared queues with extreme values. " +
+			"exhaustive-deep: every sequence of length 6 and 7 (thorough: 7 and 8) over {Enqueue 1|2, Dequeue, Peek, Clear}; " +
+			"random: length-400 histories in fill / over-drain / churn phases over values 0..5; " +
+			"large: structured long histories over distinct increasing values for both implementations, Peek/Size/Search observed at several points and a full drain at the end: " +
+			"bulk grow to N in {40,130,300,1030} (thorough also 2050 and, slice queue only, 4000) then remove 3N/4+2, N or N+3; saw-tooth p+1 -> p/4-1 over the powers of two p up to 1024 (thorough 4096; linked queue 2048) with thrashing across each capacity boundary; " +
+			"sliding windows holding 1..4 elements while 130, 300, 1100 (5000) elements pass through; malformed: reads and removals on empty, emptied and cleared queues with extreme values. " +
 			"Non-trivial = the history drains the queue to empty (Dequeue or Clear from a non-empty state) and enqueues again afterwards.",
 		Exec:     execC05,
 		Gen:      genC05,
